@@ -200,13 +200,14 @@ def judge_c17(s, r):
         d = after.get(dst_path)
         if src is None or d is None:
             continue
-        if s["opts"].get("R"):
+        blk = next((b_ for b_ in blocks if b_.startswith(dst_path + "\n") or b_.startswith(dst_path + " ")), "")
+        # (a patch turned round at run time - "Assuming -R" - is the reversed patch from there on, modes included)
+        if bool(s["opts"].get("R")) != ("Assuming -R" in blk):
             want = int(x["mode_old"][-3:], 8) if x.get("mode_old") else src[1]
         else:
             want = int(x["mode_new"][-3:], 8) if x.get("mode_new") else src[1]
         refused = bool(re.search(r"^File %s is read-only; refusing to patch" % re.escape(p), out, flags=re.M))
         # a patch that was skipped as already applied is not applied: its new mode is not due either
-        blk = next((b_ for b_ in blocks if b_.startswith(dst_path + "\n") or b_.startswith(dst_path + " ")), "")
         if "Skipping patch" in blk:
             want = src[1]
         if refused or aborted or s["opts"].get("dry"):
